@@ -175,11 +175,12 @@ def r_value_parser(ctx):
 
 def check(ctx):
     from . import c04
-    c04.group_rule(ctx, 'R15.5', r'^(<value::Value as std::fmt::Display>::fmt.*|types::TypeInner::<A>::display|<witness::(WitnessValues|Arguments) as (std::fmt::Display>::fmt|parse::ParseFromStr>::parse_from_str.*)|value::Value::parse_from_str|witness::<impl parse::ParseFromStr for types::ResolvedType>::parse_from_str)$', 'value/type/map printers and parsers: complete state machines (loop-carried flags havocked) with every call', 8)
+    c04.group_rule(ctx, 'R15.5', r'^(<value::Value as std::fmt::Display>::fmt.*|<value::UIntValue as std::fmt::Display>::fmt|<types::(ResolvedType|AliasedType|UIntType|BuiltinAlias) as std::fmt::Display>::fmt|<num::(U256|NonZeroPow2Usize|Pow2Usize) as std::fmt::Display>::fmt|<str::(WitnessName|ModuleName) as std::fmt::Display>::fmt|types::TypeInner::<A>::display|<witness::(WitnessValues|Arguments) as (std::fmt::Display>::fmt|parse::ParseFromStr>::parse_from_str.*)|value::Value::parse_from_str|witness::<impl parse::ParseFromStr for types::ResolvedType>::parse_from_str)$', 'value/type/map printers and parsers: complete state machines (loop-carried flags havocked) with every call', 8)
     r_maps(ctx)
     r_value_printer(ctx)
     r_value_parser(ctx)
     c11.r_print(ctx)
     c16.r_name_tables(ctx, 'R15.6')
     c16.r_number_tokens(ctx, 'R15.7')
+    c04.group_rule(ctx, 'R15.9', r"^(<(&value::Value|&types::ResolvedType|&types::AliasedType) as miniscript::iter::TreeLike>::as_node|ast::analyze_named_module::\{closure#\d+\})$", 'children of value and type nodes in the order the printers visit them; module item selection', 3)
     c04.r_reviewed_grammar(ctx, 'R15.8', roots={'program', 'ty', 'expression'})
